@@ -4,6 +4,8 @@ import (
 	"encoding/json"
 	"fmt"
 	"math/rand"
+	"reflect"
+	"regexp"
 	"sync"
 	"time"
 
@@ -26,20 +28,57 @@ func (s *scribbler) UpdateTableState(t *pt.Table) error {
 	s.mu.Lock()
 	s.ptrs = append(s.ptrs, t)
 	s.mu.Unlock()
-	t.State.GameCount = -777
-	for _, ps := range t.State.PlayerStates {
-		ps.Bankroll = -777
-		ps.PlayerID = "scribbled"
+	// overwrite every number and every string reachable from the copy this actor was given (in place, so that
+	// anything still shared with the engine or with another actor's copy shows the sentinel there)
+	scribbleAll(reflect.ValueOf(t), 0)
+	return nil
+}
+
+const scribbleInt, scribbleStr = -987654321, "scribbled"
+
+// a number is only the scribbler's when it stands as a JSON value of its own (game ids are hex strings with dashes)
+var scribbleRe = regexp.MustCompile(`[:\[,]-987654321[,\]}]|"scribbled"`)
+
+func scribbleAll(v reflect.Value, depth int) {
+	if depth > 40 {
+		return
 	}
-	if gs := t.State.GameState; gs != nil {
-		gs.Meta.Deck = []string{"XX"}
-		for _, p := range gs.Players {
-			p.HoleCards = []string{"XX", "XX"}
-			p.StackSize = -777
+	switch v.Kind() {
+	case reflect.Ptr, reflect.Interface:
+		if !v.IsNil() {
+			scribbleAll(v.Elem(), depth+1)
+		}
+	case reflect.Struct:
+		for i := 0; i < v.NumField(); i++ {
+			if v.Type().Field(i).PkgPath == "" { // exported
+				scribbleAll(v.Field(i), depth+1)
+			}
+		}
+	case reflect.Slice, reflect.Array:
+		for i := 0; i < v.Len(); i++ {
+			scribbleAll(v.Index(i), depth+1)
+		}
+	case reflect.Map:
+		for _, k := range v.MapKeys() {
+			e := v.MapIndex(k)
+			switch e.Kind() {
+			case reflect.Ptr, reflect.Interface, reflect.Slice, reflect.Map:
+				scribbleAll(e, depth+1)
+			case reflect.Int, reflect.Int64, reflect.Int32:
+				v.SetMapIndex(k, reflect.ValueOf(scribbleInt).Convert(e.Type()))
+			case reflect.String:
+				v.SetMapIndex(k, reflect.ValueOf(scribbleStr).Convert(e.Type()))
+			}
+		}
+	case reflect.Int, reflect.Int64, reflect.Int32:
+		if v.CanSet() {
+			v.SetInt(scribbleInt)
+		}
+	case reflect.String:
+		if v.CanSet() {
+			v.SetString(scribbleStr)
 		}
 	}
-	t.State.SeatMap = nil
-	return nil
 }
 
 type seenView struct {
@@ -50,23 +89,20 @@ type seenView struct {
 }
 
 func scribbled(t *pt.Table) string {
-	if t.State.GameCount == -777 {
-		return "game count -777"
-	}
-	for _, ps := range t.State.PlayerStates {
-		if ps.Bankroll == -777 || ps.PlayerID == "scribbled" {
-			return "player state scribbled"
+	b, _ := json.Marshal(t)
+	return scribbledJSON(b)
+}
+
+func scribbledJSON(b []byte) string {
+	if loc := scribbleRe.FindIndex(b); loc != nil {
+		lo, hi := loc[0]-60, loc[1]+30
+		if lo < 0 {
+			lo = 0
 		}
-	}
-	if gs := t.State.GameState; gs != nil {
-		if len(gs.Meta.Deck) == 1 && gs.Meta.Deck[0] == "XX" {
-			return "deck scribbled"
+		if hi > len(b) {
+			hi = len(b)
 		}
-		for _, p := range gs.Players {
-			if p.StackSize == -777 {
-				return "hand player scribbled"
-			}
-		}
+		return "the scribbler's mark at ..." + string(b[lo:hi]) + "..."
 	}
 	return ""
 }
@@ -163,7 +199,7 @@ func c20Run(c *h.Ctx) {
 			if failed {
 				return
 			}
-			if why := scribbled(t); why != "" {
+			if why := scribbledJSON(b); why != "" {
 				mu.Lock()
 				fail("C20/one-actors-changes-reached-another", fmt.Sprintf("%s was shown a table with %s (made by another actor on what should be its private copy)", who, why), witness())
 				mu.Unlock()
@@ -227,6 +263,13 @@ func c20Run(c *h.Ctx) {
 			o := actor.NewObserverRunner()
 			o.OnTableStateUpdated(record("observer"))
 			a.SetRunner(o)
+		case "demoted-observer":
+			// was a system observer once, is an ordinary one now: judged like any observer
+			o := actor.NewObserverRunner()
+			o.EnabledSystemMode(true)
+			o.EnabledSystemMode(false)
+			o.OnTableStateUpdated(record("observer"))
+			a.SetRunner(o)
 		case "system-observer":
 			o := actor.NewObserverRunner()
 			o.EnabledSystemMode(true)
@@ -240,6 +283,10 @@ func c20Run(c *h.Ctx) {
 		return a
 	}
 	names = []string{"observer", "system-observer", "recorder", "scribbler", "observer"}
+	if r.Intn(2) == 0 {
+		names[4] = "demoted-observer"
+		c.Feature("observer-demoted-from-system-mode")
+	}
 	r.Shuffle(len(names), func(i, j int) { names[i], names[j] = names[j], names[i] })
 	for _, n := range names {
 		actors = append(actors, mk(n))
@@ -348,7 +395,7 @@ func c20Run(c *h.Ctx) {
 
 type recRunner struct{ fn func(t *pt.Table) }
 
-func (r *recRunner) SetActor(a actor.Actor)                 {}
+func (r *recRunner) SetActor(a actor.Actor)             {}
 func (r *recRunner) UpdateTableState(t *pt.Table) error { r.fn(t); return nil }
 
 func init() {
@@ -364,7 +411,7 @@ func init() {
 			return map[string]int{"quick": 420, "thorough": 7000}[tier]
 		},
 		RequiredFeatures: func(string) []string {
-			return []string{"observer-view:table_game_playing", "observer-view:table_game_settled", "observer-view:table_closed", "system-observer-view:table_game_playing", "recorder-view:table_closed", "closed-with-hand-attached", "republished-by:extend", "republished-by:redeem", "first-actor:observer", "first-actor:scribbler", "first-actor:system-observer", "ending:showdown", "ending:fold-out", "concurrent-publications"}
+			return []string{"observer-view:table_game_playing", "observer-view:table_game_settled", "observer-view:table_closed", "system-observer-view:table_game_playing", "recorder-view:table_closed", "closed-with-hand-attached", "republished-by:extend", "republished-by:redeem", "first-actor:observer", "first-actor:scribbler", "first-actor:system-observer", "ending:showdown", "ending:fold-out", "concurrent-publications", "observer-demoted-from-system-mode"}
 		},
 		CaseTimeout: 120e9,
 		Run:         c20Run,
